@@ -333,7 +333,7 @@ func ghostHintParams(requires []types.Type, providerFnSig *types.Signature, prov
 //kvc:contract extractExportedFields
 func contract_extractExportedFields(t types.Type) (result []*StructFieldSpec, err error) {
 	vs.Ensures("fields_present", vs.Implies(err == nil, vs.Forall(len(result), func(i int) bool {
-		return result[i] != nil && !vs.Old(vs.IsAllocated(result[i]))
+		return result[i] != nil && !vs.Old(vs.IsAllocated(result[i])) && result[i].Type != nil
 	})))
 	vs.Modifies()
 	vs.Allocates()
@@ -394,6 +394,10 @@ func contract_Parser_parseProviderArgument(p *Parser, pkg *packages.Package, kes
 	// Async mark, fallibility, requirements, result groups, struct expansion
 	vs.Ensures("one_spec_per_provider_carrying_its_declaration", vs.Implies(err == nil && gAppended,
 		len(build.Providers) == vs.Old(len(build.Providers))+1 && carriesDeclaration(build.Providers[len(build.Providers)-1], gParsed)))
+	// what NewGraph relies on: every spec appended is there, and so are the fields of a Struct expansion and their types
+	vs.Ensures("appended_specs_present", vs.ForallRange(vs.Old(len(build.Providers)), len(build.Providers), func(i int) bool {
+		return providerInputWF(build.Providers[i])
+	}))
 	vs.Modifies(build.Providers, imports, varPool.vars, vs.FieldOfAll(vs.As[*ast.Ident](arg).Name), gParsed, gAppended,
 		gInnerAsync, gInnerErr, gInnerStruct, gInnerType, gInnerRequires, gInnerProvides)
 	vs.Allocates()
@@ -405,7 +409,33 @@ func inv_parseProviderArgument_set(p *Parser, pkg *packages.Package, kessokuPack
 	vs.Invariant("env", p != nil && pkg != nil && pkg.TypesInfo != nil && kessokuPackageScope != nil && build != nil && varPool != nil)
 	vs.Invariant("providers_only_appended", len(build.Providers) >= vs.Old(len(build.Providers)) &&
 		vs.Forall(vs.Old(len(build.Providers)), func(i int) bool { return build.Providers[i] == vs.Old(build.Providers)[i] }))
+	vs.Invariant("appended_specs_present", vs.ForallRange(vs.Old(len(build.Providers)), len(build.Providers), func(i int) bool {
+		return providerInputWF(build.Providers[i])
+	}))
 }
 
 //kvc:ghost (*Parser).parseProviderArgument after "for _, setArg := range callExpr.Args"
 func ghostArgSetDone() { gAppended = false }
+
+//kvc:purepkg go/constant
+
+// What the parser hands to NewGraph (the precondition the NewGraph contracts are proved under), established where the
+// BuildDirective is made.
+//
+//kvc:contract (*Parser).parseInjectCall
+func contract_Parser_parseInjectCall(p *Parser, pkg *packages.Package, kessokuPackageScope *types.Scope, call *ast.CallExpr, imports map[string]*Import, fileImports []*ast.ImportSpec, varPool *VarPool) (result *BuildDirective, err error) {
+	vs.Requires(p != nil && pkg != nil && pkg.TypesInfo != nil && kessokuPackageScope != nil && call != nil && varPool != nil)
+	vs.Requires(vs.IsAllocated(call.Fun)) // a syntax tree from the parser has no typed-nil nodes
+	vs.Ensures("build_or_error", (err == nil) == (result != nil))
+	vs.Ensures("hands_over_a_well_formed_declaration", vs.Implies(err == nil, buildInputWF(result)))
+	vs.ModifiesAll()
+	vs.Allocates()
+	return
+}
+
+//kvc:loop (*Parser).parseInjectCall "for _, arg := range call.Args[1:]"
+func inv_parseInjectCall_args(p *Parser, pkg *packages.Package, kessokuPackageScope *types.Scope, build *BuildDirective, varPool *VarPool) {
+	vs.Invariant("env", p != nil && pkg != nil && pkg.TypesInfo != nil && kessokuPackageScope != nil && varPool != nil)
+	vs.Invariant("build", build != nil && vs.IsAllocated(build) && build.Return != nil)
+	vs.Invariant("specs_present", vs.Forall(len(build.Providers), func(i int) bool { return providerInputWF(build.Providers[i]) }))
+}
